@@ -11,6 +11,12 @@ Translated (Python ast -> Gallina over `string`, fail closed):
                                       (+ `inflight_paths_equal : ... = ...` by eq_refl: the build breaks if they differ)
   DEFAULT_INFLIGHT_TIMEOUT_MS, DEFAULT_GRACE_MS (collect), TABLE_DEFAULT_GRACE_MS (Table.garbage_collect)
   MARKERS_FIRST                       whether collect() loads the in-flight protection before it reads the metadata
+  COLLECT_CHECKS_CURRENT_SNAPSHOT     whether collect() calls self._require_current_snapshot_listed(metadata) on refresh()'s result,
+  / CURRENT_UNSET_NUM                 unconditionally, before the first sweep (the helper's body is pinned statement by statement;
+                                      Model/GCDoc.v current_listed is that loop over the document)
+  LIST_/MANIFEST_JSON_MISSING_SECTION_READS_EMPTY
+                                      FileManager.read_manifest(_list)_file, JSON fallback: `for x in DOC.get(key, [])` (a document
+                                      without its section reads as EMPTY: true) or `for x in DOC[key]` (refused: false)
   append_accepts_path normpath file_path
                                       Transaction.append_files: the conjunction of the pure path guards it applies to EVERY file
                                       unconditionally (`self._require_*(data_file.file_path)` statements at the top level of its
